@@ -107,6 +107,8 @@ pub async fn handle_notify_get_or_head(
         Ok(wait) => wait,
         Err(resp) => return Ok(resp),
     };
+    #[cfg(routinator_verif)]
+    crate::verif::point("http.notify.checked");
 
     if wait {
         receiver.recv().await;
